@@ -158,7 +158,9 @@ class BulkWriteOperation(object):
                                         multi=multi, upsert=self.is_upsert,
                                         **extra_args)
             ret_val = {}
-            if result.get('upserted') is not None:
+            # an upserted _id can be null: the update then counts one document it did not find
+            if result.get('upserted') is not None or (
+                    result.get('n') and result.get('updatedExisting') is False):
                 ret_val['upserted'] = result.get('upserted')
                 ret_val['nUpserted'] = result.get('n')
             else:
